@@ -274,7 +274,7 @@ def conclude(pid, tier, seed, P, results, t0, verbose):
         tail = "" if confirmed else " no-failing-input-found"
         vio_lines.append(f"VIOLATION property={pid} replay={rel}{tail}")
     # evidence
-    n_obl = sum(1 for o in all_obl if o.get("kind") in ("vc", "lemma", "enum", "scan"))
+    n_obl = sum(1 for o in all_obl if o.get("kind") in ("vc", "lemma", "enum", "scan") and o["verdict"] != "KNOWN_FINDING")
     n_dis = sum(1 for o in all_obl if o.get("kind") in ("vc", "lemma", "enum", "scan") and o["verdict"] in ("PROVED", "HELD"))
     by_backend = {}
     solver_time = 0.0
@@ -325,7 +325,9 @@ def conclude(pid, tier, seed, P, results, t0, verbose):
     )
     if n_obl == 0:
         errors.append(dict(name=f"{pid}:zero-obligations", reason="no obligations generated"))
-    os.makedirs(os.path.join(HERE, "evidence"), exist_ok=True)
+    # evidence of runs against a scratch tree (mutation self-test, VERIF_REPO set) never replaces the real one
+    evdir = "evidence" if os.path.abspath(REPO) == "/repo" else os.path.join(".cache", "evidence_scratch")
+    os.makedirs(os.path.join(HERE, evdir), exist_ok=True)
     try:
         import jsonschema
         jsonschema.validate(ev, json.load(open("/root/.vp/EVIDENCE.schema.json")))
@@ -333,7 +335,7 @@ def conclude(pid, tier, seed, P, results, t0, verbose):
         pass
     except Exception as ex:
         errors.append(dict(name="evidence-schema", reason=str(ex)[:300]))
-    json.dump(ev, open(os.path.join(HERE, "evidence", f"{pid}.json"), "w"), indent=1, default=str)
+    json.dump(ev, open(os.path.join(HERE, evdir, f"{pid}.json"), "w"), indent=1, default=str)
     # report
     print(f"[{pid}] tier={tier} obligations={n_obl} discharged={n_dis} refuted={len(violations)} "
           f"undecided={len(undecided)} errors={len(errors)} known={len(kf_lines)} wall={ev['wall_s']}s")
